@@ -263,9 +263,25 @@ class Derived(Base):
     def __init__(self, a, b):
         super().__init__(a)
         self.__x = b
+        self.__y__x = 7
 
     @icontract.ensure(lambda self: self.__x > 100, a_repr=REC)
     def n(self):
+        return None
+
+    # the condition mentions the attribute of the base by its mangled name, too
+    @icontract.require(lambda self: self.__x > 100 and self._Base__x > -1000, a_repr=REC)
+    def k(self):
+        return None
+
+    # a private name which is a suffix of another private name
+    @icontract.require(lambda self: self.__x > 100 and self.__y__x > -1000, a_repr=REC)
+    def j(self):
+        return None
+
+    # the private attribute is read inside a comprehension (compiled by the library out of the class body)
+    @icontract.require(lambda self: all(v < self.__x - 100 for v in [0]), a_repr=REC)
+    def c(self):
         return None
 '''
 _PRIVATE_MOD = []  # type: List[Any]
@@ -274,7 +290,7 @@ _PRIVATE_MOD = []  # type: List[Any]
 def run_private(a: int, b: int, which: int) -> Tuple[bool, bool]:
     """Base and Derived both define the private attribute __x; a condition written in Base reads _Base__x, one written in
     Derived reads _Derived__x - also on a Derived instance.  The message shows the value Python read."""
-    which = conc(which, 0, 1)
+    which = conc(which, 0, 4)
     with untraced():
         if not _PRIVATE_MOD:
             import importlib.util
@@ -297,7 +313,7 @@ def run_private(a: int, b: int, which: int) -> Tuple[bool, bool]:
     read = a if which == 0 else b
     del REC.seen[:]
     try:
-        fresh(inst.m if which == 0 else inst.n)
+        fresh([inst.m, inst.n, inst.k, inst.j, inst.c][which])
         outcome = None  # type: Any
     except icontract.ViolationError as err:
         outcome = err
@@ -305,7 +321,7 @@ def run_private(a: int, b: int, which: int) -> Tuple[bool, bool]:
         return outcome is None, False
     if outcome is None:
         return False, True
-    ok = False
+    ok = which == 4  # (inside a comprehension scope the attribute need not be listed; the violation must be reported)
     for line in str(outcome).split("\n"):
         if line.startswith("self.__x was <") and line.endswith(">"):
             tok = int(line[len("self.__x was <"):-1])
@@ -344,7 +360,8 @@ def harnesses(tier: str) -> List[H]:
                         "listed); not part of the claim", family_size=1))
     PV = ["a", "b", "which"]
     out.append(H("private_attribute_two_classes", bind(run_private, (), PV, {}, PV),
-                 [I("a", 90, 110), I("b", 90, 110), I("which", 0, 1)], tiers=(tier,), timeout=200,
+                 [I("a", 90, 110), I("b", 90, 110), I("which", 0, 4)], tiers=(tier,), timeout=200,
                  family="Base and Derived both define self.__x; a precondition written in Base and a postcondition written in "
-                        "Derived read it on a Derived instance", family_size=2))
+                        "Derived read it on a Derived instance; conditions of Derived that also mention self._Base__x, another "
+                        "private name ending in __x, or read self.__x inside a comprehension", family_size=5))
     return out
